@@ -736,22 +736,35 @@ def check_c18(chk, tier):
         with open(one_toml, "w") as f:
             f.write('path = "unused"\noptimizations = ["sstore"]\nvulnerabilities = []\nqa = []\n')
 
+        none_toml = os.path.join(root, "none.toml")
+        with open(none_toml, "w") as f:
+            f.write('path = "unused"\noptimizations = []\nvulnerabilities = []\nqa = []\n')
+
         def argsof(c, mode):
             a = ["--path", pathof[c]]
             if mode == "one":
                 a += ["--toml", one_toml]
+            if mode == "none":
+                a += ["--toml", none_toml]
             return a
         # the clean reports R (all patterns) and R1 (one pattern)
         clean = {}
         rfile = os.path.join(cwds["other"], "solstat_report.md")
-        for mode in ("full", "one"):
+        for mode in ("full", "one", "none"):
             code, err = bindrive.run_solstat(sb, cwds["other"], argsof("other", mode))
-            if code != 0 or not os.path.exists(rfile):
+            if code != 0:
                 raise ToolError("clean run (%s) failed: exit %s %s" % (mode, code, err))
+            if not os.path.exists(rfile):
+                # a successful run from a clean directory must create the report, even an empty one
+                chk.violate("runfs:no-report-created:mode=%s" % mode,
+                            "solstat %s in an empty working directory exits 0 but leaves no solstat_report.md" % " ".join(argsof("other", mode)),
+                            {"args": argsof("other", mode), "cwd": "other", "mode": mode})
+                clean[mode] = b""
+                continue
             clean[mode] = open(rfile, "rb").read()
             os.remove(rfile)
         if clean["full"] == clean["one"] or not clean["one"]:
-            raise ToolError("the restricted run does not produce a different, non-empty report")
+            raise ToolError("the restricted runs do not produce distinguishable reports")
         stale = {"junk": b"previous junk\n", "R": clean["full"], "long": clean["full"] + b"\n" + clean["full"],
                  "sol": b"pragma solidity ^0.4.0;\ncontract X { function f() public { x++; selfdestruct(msg.sender); } }\n"}
         cap = 800 if tier == "quick" else 6000
@@ -833,7 +846,8 @@ def check_c01(chk, tier):
     vlib.write_ndjson(bpath, beh)
     # spec -> impl: every generated tree is rendered, parsed, projected (round trip checked) and searched by the real code
     t1 = os.path.join(d, "trace-gen.ndjson")
-    res = vlib.harness(hb, ["gen-walk", bpath, t1], timeout=3000)
+    # Level A trees: the search from EVERY node; the ~20 000 Level B trees: from the file, contracts, functions and sampled nodes
+    res = vlib.harness(hb, ["gen-walk", bpath, t1, "1" if len(beh) < 2000 else "0"], timeout=3000)
     chk.add_harness(res, count_traces=False)
     trace_validate(chk, "TV_Walk", t1, _walk_describe, timeout=3000)
     # impl -> spec: corpus programs
